@@ -374,33 +374,41 @@ func (in *Interp) zeroOrNil(t types.Type) Value {
 
 // ---------- channels (single logical thread) ----------
 
+// sendReady: a send can complete now (buffer space, or — unbuffered — a receiver is parked).
+func (c *Chan) sendReady() bool {
+	return c.Closed || len(c.Q) < c.Cap || (c.Cap == 0 && c.RecvWaiting > len(c.Q))
+}
+
 func (in *Interp) chanSend(c *Chan, v Value) {
+	in.schedPoint("chan send")
+	where := in.Prog.Fset.Position(in.curPos).String()
 	if c.Nil {
-		panic(pathEnd{endBlocked, "send on nil channel"})
+		in.block(func() bool { return false }, "send on nil channel at "+where)
 	}
+	in.block(c.sendReady, "send on full channel at "+where)
 	if c.Closed {
 		in.goPanicRuntime("send on closed channel")
 	}
-	if len(c.Q) < c.Cap {
-		c.Q = append(c.Q, copyVal(v))
-		return
-	}
-	panic(pathEnd{endBlocked, "BLOCKED: send on full channel at " + in.Prog.Fset.Position(in.curPos).String() + lockNote(in)})
+	c.Q = append(c.Q, copyVal(v))
 }
 
 func (in *Interp) chanRecv(c *Chan) (Value, bool) {
+	in.schedPoint("chan receive")
+	where := in.Prog.Fset.Position(in.curPos).String()
 	if c.Nil {
-		panic(pathEnd{endBlocked, "receive on nil channel"})
+		in.block(func() bool { return false }, "receive on nil channel at "+where)
+	}
+	if len(c.Q) == 0 && !c.Closed {
+		c.RecvWaiting++
+		defer func() { c.RecvWaiting-- }()
+		in.block(func() bool { return len(c.Q) > 0 || c.Closed }, "receive on empty channel at "+where)
 	}
 	if len(c.Q) > 0 {
 		v := c.Q[0]
 		c.Q = c.Q[1:]
 		return v, true
 	}
-	if c.Closed {
-		return nil, false
-	}
-	panic(pathEnd{endBlocked, "BLOCKED: receive on empty channel at " + in.Prog.Fset.Position(in.curPos).String() + lockNote(in)})
+	return nil, false
 }
 
 func lockNote(in *Interp) string {
@@ -430,37 +438,89 @@ func (in *Interp) selectOp(fr *Frame, x *ssa.Select) Value {
 			ri++
 		}
 	}
+	in.schedPoint("select")
+	chans := make([]*Chan, len(x.States))
 	for i, st := range x.States {
-		c := in.get(fr, st.Chan).(*Chan)
-		if c.Nil {
-			continue
-		}
-		if st.Dir == types.RecvOnly {
-			if len(c.Q) > 0 || c.Closed {
-				v, ok := in.chanRecv(c)
-				if v != nil {
-					res[recvIdx[i]] = v
+		chans[i] = in.get(fr, st.Chan).(*Chan)
+	}
+	try := func() bool {
+		for i, st := range x.States {
+			c := chans[i]
+			if c.Nil {
+				continue
+			}
+			if st.Dir == types.RecvOnly {
+				if len(c.Q) > 0 || c.Closed {
+					var v Value
+					ok := false
+					if len(c.Q) > 0 {
+						v, ok = c.Q[0], true
+						c.Q = c.Q[1:]
+					}
+					if v != nil {
+						res[recvIdx[i]] = v
+					}
+					res[0] = term.Const(64, uint64(i))
+					res[1] = term.Bool(ok)
+					return true
 				}
-				res[0] = term.Const(64, uint64(i))
-				res[1] = term.Bool(ok)
-				return res
-			}
-		} else {
-			if c.Closed {
-				in.goPanicRuntime("send on closed channel")
-			}
-			if len(c.Q) < c.Cap {
-				c.Q = append(c.Q, copyVal(in.get(fr, st.Send)))
-				res[0] = term.Const(64, uint64(i))
-				return res
+			} else {
+				if c.Closed {
+					in.goPanicRuntime("send on closed channel")
+				}
+				if c.sendReady() {
+					c.Q = append(c.Q, copyVal(in.get(fr, st.Send)))
+					res[0] = term.Const(64, uint64(i))
+					return true
+				}
 			}
 		}
+		return false
+	}
+	if try() {
+		return res
 	}
 	if !x.Blocking {
 		res[0] = term.Const(64, ^uint64(0))
 		return res
 	}
-	panic(pathEnd{endBlocked, "BLOCKED: select with no ready case at " + in.Prog.Fset.Position(in.curPos).String() + lockNote(in)})
+	anyReady := func() bool {
+		for i, st := range x.States {
+			c := chans[i]
+			if c.Nil {
+				continue
+			}
+			if st.Dir == types.RecvOnly {
+				if len(c.Q) > 0 || c.Closed {
+					return true
+				}
+			} else if c.sendReady() {
+				return true
+			}
+		}
+		return false
+	}
+	for {
+		// parked receivers make unbuffered senders ready
+		for i, st := range x.States {
+			if st.Dir == types.RecvOnly && !chans[i].Nil {
+				chans[i].RecvWaiting++
+			}
+		}
+		func() {
+			defer func() {
+				for i, st := range x.States {
+					if st.Dir == types.RecvOnly && !chans[i].Nil {
+						chans[i].RecvWaiting--
+					}
+				}
+			}()
+			in.block(anyReady, "select with no ready case at "+in.Prog.Fset.Position(in.curPos).String())
+		}()
+		if try() {
+			return res
+		}
+	}
 }
 
 // ---------- intrinsics ----------
